@@ -21,7 +21,7 @@ import collections, os, random, re, sys
 import vcommon
 from vcommon import VERIF
 
-PROPS = ["Bee2V/C11/Props.lean", "Bee2V/C11/PropsConc.lean", "Bee2V/C11/PropsMath.lean"]
+PROPS = ["Bee2V/C11/Props.lean", "Bee2V/C11/PropsConc.lean", "Bee2V/C11/PropsMath.lean", "Bee2V/C11/PropsHL.lean"]
 
 # coverage class of every function of the scope (include/bee2/core, include/bee2/crypto)
 #   "diff"   : theorem + correspondence op (harness vs driver) + search oracle
@@ -72,6 +72,12 @@ def regen(ctx):
     x_c11_remarks.REPO = vcommon.REPO
     entries, txt = x_c11_remarks.generate()
     ctx.regen("Bee2V/Gen/C11List.lean", txt)
+    import x_c11_inventory
+    importlib.reload(x_c11_inventory)
+    x_c11_inventory.REPO = vcommon.REPO
+    inv, itxt = x_c11_inventory.generate()
+    ctx.regen("Bee2V/Gen/C11Inv.lean", itxt)
+    regen.inventory = inv
     return entries
 
 
@@ -196,6 +202,7 @@ def replay_text(case, why):
          "# `op` is the call with overlapping buffers, `ref` the same call with pairwise disjoint buffers holding the",
          "# same contents; `cmp <buffer> <addr in op> <addr in ref> <size>` are the output buffers that must agree.",
          "# replay: ./check C11 --replay <this file>",
+         "harness " + ("harness/c11_hl.c" if case.spec.get("hl") else "harness/c11.c"),
          "op " + case.op(), "ref " + dop]
     for b, (role, szf) in case.spec["bufs"].items():
         if role in ("out", "io") and case.addr[b] is not None:
@@ -219,9 +226,10 @@ def key_of(case, bufs_bad):
     return "%s:%s" % (case.fn, ",".join(ov) or "none")
 
 
-def build_lines(cases, dops, dres):
+def build_lines(cases, dops, dres, H=None):
     """op lines for harness + driver: concrete functions as they are; abstract-core functions with the
-       disjoint relocation and the values the real library produced there"""
+       disjoint relocation and the values the real library produced there; generic high-level functions
+       additionally with the description of their order program for both placements"""
     lines = []
     for c, (dop, daddr), dr in zip(cases, dops, dres):
         if c.spec.get("concrete"):
@@ -235,9 +243,15 @@ def build_lines(cases, dops, dres):
         dret, dar = split_out(dr)
         for cid, b in c.spec["outs"]:
             if daddr[b] is not None:
-                n = c.spec.get("outs_size", {}).get(cid, c.size(b))
-                vals.append("%s=%s" % (cid, dar[daddr[b]:daddr[b] + n].hex() or "-"))
-        lines.append(" ".join([c.op(), "|", dop.split(" ", 1)[1], "|", dret] + vals))
+                if cid in c.spec.get("outs_slice", {}):
+                    st, n = c.spec["outs_slice"][cid](c.sc)
+                else:
+                    st, n = 0, c.spec.get("outs_size", {}).get(cid, c.size(b))
+                vals.append("%s=%s" % (cid, dar[daddr[b] + st:daddr[b] + st + n].hex() or "-"))
+        parts = [c.op(), "|", dop.split(" ", 1)[1], "|", dret] + vals
+        if c.spec.get("hl") and c.fn not in H.OWN_PROGRAM:
+            parts += ["|"] + H.describe(c, c.addr) + ["|"] + H.describe(c, daddr)
+        lines.append(" ".join(parts))
     return lines
 
 
@@ -347,6 +361,122 @@ def hl_shape(ctx):
 
 
 
+# ------------------------------------------------------------------ high-level functions the header is silent about
+def _hl():
+    import importlib
+    import x_c11_hl
+    return importlib.reload(x_c11_hl)
+
+
+def hl_place(rng, spec, sc, overl, prep, fn, null=()):
+    """a placement in which exactly the buffer pairs of `overl` = [(x, y, off)] overlap (x at y + off); all other
+       buffers lie apart"""
+    from x_c11_spec import Case
+    bufs = spec["bufs"]
+    size = {b: bufs[b][1](sc) for b in bufs}
+    al = {b: (2 if b in spec.get("align2", ()) else 1) for b in bufs}
+    addr, cur = {}, 8
+    moved = set()
+    groups = []            # lay out group by group; a group = buffers tied together by overl
+    for b in bufs:
+        if b in null:
+            addr[b] = None
+    for x, y, off in overl:
+        if y not in addr:
+            lo = max([size[x] + abs(off) + 8])
+            addr[y] = cur + lo
+            cur = addr[y] + size[y] + 8
+        addr[x] = addr[y] + off
+        if addr[x] < 0 or addr[x] % al[x]:
+            return None
+        cur = max(cur, addr[x] + size[x] + 8)
+    for b in bufs:
+        if b not in addr:
+            while cur % al[b]:
+                cur += 1
+            addr[b] = cur
+            cur += size[b] + 8
+    arena = bytearray(rng.randbytes(cur + 8))
+    contents = dict(prep or {})
+    for b, data in contents.items():
+        if data is not None and addr.get(b) is not None and b in bufs and bufs[b][0] != "out":
+            arena[addr[b]:addr[b] + size[b]] = data[:size[b]]
+    return Case(fn, spec, sc, addr, bytes(arena))
+
+
+def hl_pairs(spec):
+    outs = [b for b, (r, _) in spec["bufs"].items() if r != "in"]
+    return [(o, i) for o in outs for i in spec["bufs"] if i != o and spec["bufs"][i][0] != "out"]
+
+
+def hl_offsets(rng, nx, ny, tier, k):
+    """x (size nx) against y (size ny): every way of overlapping at the boundaries + a sample"""
+    lo, hi = -(nx - 1), ny - 1
+    full = list(range(lo, hi + 1))
+    must = {lo, hi, 0, ny - nx, 1, -1, ny - nx + 1, ny - nx - 1, (ny - nx) // 2, 8, -8, 16, -16}
+    must = sorted(o for o in must if lo <= o <= hi)
+    if tier == "thorough" and len(full) <= 400:
+        return full
+    rest = [o for o in full if o not in must]
+    return sorted(set(must + rng.sample(rest, min(len(rest), max(0, k - len(must))))))
+
+
+def hl_cases(ctx, exe_hl, S, H, only=None, tolerated=None):
+    """placements for the functions of xlate/x_c11_hl.py (harness/c11_hl.c).  For every (output, input) pair of a
+       function: the output swept over the input (all boundary offsets + a sample) with every other buffer apart;
+       plus combined placements (all tolerated pairs at once, the in-place use).  `tolerated` = {fn: set of pairs} limits
+       the sweep to the pairs the model claims (None = explore every pair)."""
+    rng, tier = ctx.rng, ctx.tier
+    call = H.make_call(lambda ops: run_robust(ctx, exe_hl, ops))
+    cases = []
+    for fn, spec in H.HL.items():
+        if only and fn not in only:
+            continue
+        for sc in spec["scal"](rng, tier):
+            sc = dict(sc)
+            prep = spec["prep"](rng, sc, call) if spec.get("prep") else None
+            size = {b: spec["bufs"][b][1](sc) for b in spec["bufs"]}
+            k = spec.get("quick_offsets") or (13 if tier == "quick" else 41)
+            pairs = [p for p in hl_pairs(spec) if tolerated is None or p in tolerated.get(fn, ())]
+            pairs = [p for p in pairs if tuple(p) not in [tuple(f) for f in spec["forbid"]] and tuple(reversed(p)) not in [tuple(f) for f in spec["forbid"]]]
+            for x, y in pairs:
+                if size[x] == 0 or size[y] == 0:
+                    continue
+                for off in hl_offsets(rng, size[x], size[y], tier, k):
+                    c = hl_place(rng, spec, sc, [(x, y, off)], prep, fn)
+                    if c:
+                        c.off, c.aux, c.hl, c.pair = off, "pair", True, (x, y)
+                        cases.append(c)
+            # null optional pointers, everything apart
+            for nb in sorted(spec.get("nullable", ())):
+                c = hl_place(rng, spec, sc, [], prep, fn, null=(nb,))
+                if c:
+                    c.off, c.aux, c.hl, c.pair = 0, "null", True, None
+                    cases.append(c)
+            for ov in (spec["extra"](sc) if spec.get("extra") else []):
+                c = hl_place(rng, spec, sc, ov, prep, fn)
+                if c:
+                    c.off, c.aux, c.hl, c.pair = 0, "inplace", True, None
+                    cases.append(c)
+            # combined: every tolerated pair of one output at once (random offsets)
+            if tolerated is not None:
+                outs = sorted(set(x for x, _ in pairs))
+                for _ in range(3 if tier == "quick" else 10):
+                    ov, used = [], set()
+                    for x in outs:
+                        ys = [y for xx, y in pairs if xx == x and y not in used]
+                        rng.shuffle(ys)
+                        for y in ys[:1]:
+                            ov.append((x, y, rng.randint(-(size[x] - 1), size[y] - 1) if size[x] and size[y] else 0))
+                            used.add(y)
+                    if ov:
+                        c = hl_place(rng, spec, sc, ov, prep, fn)
+                        if c:
+                            c.off, c.aux, c.hl, c.pair = 0, "combined", True, None
+                            cases.append(c)
+    return cases
+
+
 # ------------------------------------------------------------------ state-resident placements
 def state_sweep(ctx, exe):
     """search oracle for belt*Start (key inside the state) and *StepG (mac/hash inside the state):
@@ -439,6 +569,43 @@ def source_shape(ctx):
     return problems
 
 
+def inventory_check(ctx):
+    """fail-closed inventory of the functions with >= 2 octet buffers: remark / excluded (sentence quoted) / outputs /
+       silent; every silent one must be exercised (xlate/x_c11_hl.py) or listed as not exercised with its reason; the
+       pairs a header sentence excludes must be the ones the spec forbids"""
+    H = _hl()
+    inv = regen.inventory
+    problems = []
+    cls = collections.Counter(r["cls"] for r in inv)
+    silent = {r["func"]: r for r in inv if r["cls"] == "silent"}
+    for f in sorted(silent):
+        if f not in H.HL and f not in H.NOT_EXERCISED:
+            problems.append("function with several octet buffers and a silent header is not covered: %s (%s)" %
+                            (f, ", ".join("%s %s" % (a, b) for a, b, _ in silent[f]["bufs"])))
+    for f in list(H.HL) + list(H.NOT_EXERCISED):
+        if f not in silent:
+            r = [x for x in inv if x["func"] == f]
+            problems.append("%s is listed as silent but the inventory now says: %s" % (f, r[0]["cls"] + " — " + (r[0].get("quote") or "") if r else "no such function"))
+    for r in inv:
+        if r["cls"] == "excluded" and not r.get("quote"):
+            problems.append("%s: excluded without a quoted sentence" % r["func"])
+    # header sentences that exclude single pairs (bignSign: sig/hash) must be forbidden in the spec
+    alias = {"id_sig": "idsig"}
+    for f, r in silent.items():
+        if f in H.HL:
+            want = set(tuple(sorted(alias.get(x, x) for x in p)) for p in r["forbid"])
+            have = set(tuple(sorted(p)) for p in H.HL[f]["forbid"])
+            if not want <= have:
+                problems.append("%s: the header excludes %s, the spec forbids %s" % (f, sorted(want), sorted(have)))
+    ctx.cov["inventory"] = dict(cls)
+    ctx.cov["inventory_excluded_quotes"] = sorted(set("%s: %s" % (r["header"].split("/")[-1], r["quote"][:110]) for r in inv if r["cls"] == "excluded"))[:40]
+    ctx.cov["inventory_source_permits"] = sorted(f for f, r in silent.items() if r.get("src_permits"))
+    ctx.cov["inventory_not_exercised"] = sorted(H.NOT_EXERCISED)
+    ctx.cov["inventory_not_tolerated_pairs"] = {f: ["%s~%s" % p for p in v] for f, v in H.NOT_TOLERATED.items()}
+    return problems
+
+
+
 # --------------------------------------------------------------------------------------- run
 def run(ctx):
     S = _spec()
@@ -465,6 +632,7 @@ def run(ctx):
                 problems.append("exclusions of %s changed in the header: %s (theorem assumes %s)" % (f, excl.get(f), want.get(f, [])))
         problems += source_shape(ctx)
         problems += hl_shape(ctx)
+        problems += inventory_check(ctx)
         ctx.cov["scope_functions"] = len(scope)
         ctx.cov["cover_classes"] = dict(collections.Counter(COVER[f] for f in scope if f in COVER))
     except Exception as e:
@@ -489,13 +657,19 @@ def run(ctx):
 
     # ---- generate placements; pass 1: disjoint calls on the implementation
     cases = corpus_cases(S) + regression_cases(ctx, exe, S) + gen_cases(ctx, exe, S) + memjoin_sweep(ctx, S) + S.math_cases(ctx.rng, ctx.tier)
+    H = _hl()
+    exe_hl = ctx.cc("harness/c11_hl.c", "asan")
+    hcases = hl_cases(ctx, exe_hl, S, H, tolerated=H.tolerated())
     dops = [c.disjoint_op() for c in cases]
     dres = run_robust(ctx, exe, [d[0] for d in dops])
     ores = run_robust(ctx, exe, [c.op() for c in cases])
+    hdops = [c.disjoint_op() for c in hcases]
+    hdres = run_robust(ctx, exe_hl, [d[0] for d in hdops])
+    hores = run_robust(ctx, exe_hl, [c.op() for c in hcases])
 
     # ---- search oracle (the property itself, implementation alone)
     oracle_bad = collections.OrderedDict()
-    for c, (dop, daddr), dr, orr in zip(cases, dops, dres, ores):
+    for c, (dop, daddr), dr, orr in list(zip(cases, dops, dres, ores)) + list(zip(hcases, hdops, hdres, hores)):
         if c.fn in S.CONTROL:
             continue
         rd, od = outputs_of(c, daddr, dr)
@@ -520,10 +694,13 @@ def run(ctx):
 
     # ---- pass 2: correspondence model vs implementation
     lines = build_lines(cases, dops, dres)
+    hlines = build_lines(hcases, hdops, hdres, H)
     mism = []
     if os.path.exists(ctx.driver()):
         try:
             mism, c_out, l_out = ctx.diff_run(exe, lines, "placements")
+            mism2, _, _ = ctx.diff_run(exe_hl, hlines, "placements_hl")
+            mism += mism2
         except RuntimeError as e:
             ctx.notes.append(str(e))
             mism = [(-1, "driver", "", str(e))]
@@ -531,6 +708,7 @@ def run(ctx):
         mism = [(-1, "driver", "", "driver executable missing")]
 
     # ---- coverage of the generator
+    cases = cases + hcases
     per_fn = collections.Counter(c.fn for c in cases)
     overl = sum(1 for c in cases if key_of(c, None).split(":")[1] != "none")
     br = collections.Counter(branch_of(c) for c in cases if c.fn == "memJoin")
@@ -605,7 +783,11 @@ def corpus_cases(S):
 
 
 def replay(ctx, path):
-    exe = ctx.cc("harness/c11.c", "asan")
+    hsrc = "harness/c11.c"
+    for line in open(path):
+        if line.startswith("harness "):
+            hsrc = line.split()[1]
+    exe = ctx.cc(hsrc, "asan")
     op = ref = None
     cmps, same = [], []
     for line in open(path):
